@@ -36,6 +36,7 @@ type Env struct {
 	W       *World
 	mgr     *replication.Manager
 	nextTag int
+	stopped bool // Manager.Stop was called on mgr (it must not be called twice)
 	page    uint64
 	logger  logging.Logger
 }
@@ -77,6 +78,7 @@ func (e *Env) Launch(name string) *opHandle {
 	case "run":
 		m := e.newManager()
 		e.mgr = m
+		e.stopped = false
 		go m.Run(ctx)
 		go func() {
 			select {
@@ -97,6 +99,7 @@ func (e *Env) Launch(name string) *opHandle {
 		go func() { h.done <- m.ResetPipeline(ctx, PipelineID) }()
 	case "shutdown":
 		m := e.mgr
+		e.stopped = true
 		go func() { h.done <- m.Stop(ctx) }()
 	default:
 		panic("unknown op " + name)
@@ -219,7 +222,8 @@ func (e *Env) Cleanup() {
 	e.W.closed = true
 	e.W.mu.Unlock()
 	e.W.OpenGates()
-	if e.mgr != nil {
+	if e.mgr != nil && !e.stopped {
+		e.stopped = true
 		ctx, cancel := context.WithTimeout(context.Background(), opTimeout)
 		_ = e.mgr.Stop(ctx)
 		cancel()
